@@ -165,6 +165,121 @@ fn skeleton(h: &Hir) -> Option<Vec<String>> {
     }
 }
 
+const LEN_CAP: usize = 300;
+
+/// Code points that can occur in a match (None: more than 512, or the pattern has a look-around).
+fn alphabet(h: &Hir, out: &mut std::collections::BTreeSet<u32>) -> bool {
+    match h.kind() {
+        HirKind::Empty => true,
+        HirKind::Look(_) => false,
+        HirKind::Literal(l) => {
+            for ch in String::from_utf8_lossy(&l.0).chars() {
+                out.insert(ch as u32);
+            }
+            true
+        }
+        HirKind::Class(Class::Unicode(u)) => {
+            for r in u.ranges() {
+                if (r.end() as u32 - r.start() as u32) as usize + out.len() > 512 {
+                    return false;
+                }
+                for x in r.start() as u32..=r.end() as u32 {
+                    out.insert(x);
+                }
+            }
+            true
+        }
+        HirKind::Class(Class::Bytes(b)) => {
+            for r in b.ranges() {
+                for x in r.start()..=r.end() {
+                    out.insert(x as u32);
+                }
+            }
+            true
+        }
+        HirKind::Repetition(r) => alphabet(&r.sub, out),
+        HirKind::Capture(c) => alphabet(&c.sub, out),
+        HirKind::Concat(v) | HirKind::Alternation(v) => v.iter().all(|e| alphabet(e, out)),
+    }
+}
+
+/// Lengths (in characters, <= LEN_CAP) of the strings in the language, and the number of literal characters / classes.
+fn lengths(h: &Hir, atoms: &mut usize) -> Vec<bool> {
+    let mut z = vec![false; LEN_CAP + 1];
+    match h.kind() {
+        HirKind::Empty | HirKind::Look(_) => z[0] = true,
+        HirKind::Literal(l) => {
+            let n = String::from_utf8_lossy(&l.0).chars().count();
+            *atoms += n;
+            if n <= LEN_CAP {
+                z[n] = true;
+            }
+        }
+        HirKind::Class(_) => {
+            *atoms += 1;
+            z[1] = true;
+        }
+        HirKind::Capture(c) => return lengths(&c.sub, atoms),
+        HirKind::Concat(v) => {
+            z[0] = true;
+            for e in v {
+                let l = lengths(e, atoms);
+                z = conv(&z, &l);
+            }
+        }
+        HirKind::Alternation(v) => {
+            for e in v {
+                let l = lengths(e, atoms);
+                for i in 0..=LEN_CAP {
+                    z[i] = z[i] || l[i];
+                }
+            }
+        }
+        HirKind::Repetition(r) => {
+            let sub = lengths(&r.sub, atoms);
+            let mut cur = vec![false; LEN_CAP + 1];
+            cur[0] = true;
+            for _ in 0..r.min {
+                cur = conv(&cur, &sub);
+            }
+            let mut acc = cur.clone();
+            let extra = match r.max {
+                Some(m) => (m - r.min) as usize,
+                None => LEN_CAP,
+            };
+            for _ in 0..extra.min(LEN_CAP) {
+                cur = conv(&cur, &sub);
+                let mut changed = false;
+                for i in 0..=LEN_CAP {
+                    if cur[i] && !acc[i] {
+                        acc[i] = true;
+                        changed = true;
+                    }
+                }
+                if !changed {
+                    break;
+                }
+            }
+            z = acc;
+        }
+    }
+    z
+}
+
+fn conv(a: &[bool], b: &[bool]) -> Vec<bool> {
+    let mut z = vec![false; LEN_CAP + 1];
+    for i in 0..=LEN_CAP {
+        if a[i] {
+            for j in 0..=LEN_CAP - i {
+                if b[j] {
+                    z[i + j] = true;
+                }
+            }
+        }
+    }
+    z
+}
+
 fn ascii_only(h: &Hir) -> bool {
     match h.kind() {
         HirKind::Empty | HirKind::Look(_) => true,
@@ -247,6 +362,17 @@ fn main() {
                 o.push(("max_len", p.maximum_len().map(|x| J::n(x as i128)).unwrap_or(J::Null)));
                 o.push(("ascii_only", J::Bool(ascii_only(&h))));
                 o.push(("skeleton", skeleton(&h).map(|l| J::Arr(l.into_iter().map(J::s).collect())).unwrap_or(J::Null)));
+                let mut al = std::collections::BTreeSet::new();
+                if alphabet(&h, &mut al) && al.len() <= 64 {
+                    o.push(("alphabet", J::s(al.iter().filter_map(|x| char::from_u32(*x)).collect::<String>())));
+                } else {
+                    o.push(("alphabet", J::Null));
+                }
+                let mut atoms = 0usize;
+                let ls = lengths(&h, &mut atoms);
+                o.push(("atoms", J::n(atoms as i128)));
+                o.push(("len_cap", J::n(LEN_CAP as i128)));
+                o.push(("lengths", J::Arr(ls.iter().enumerate().filter(|(_, b)| **b).map(|(i, _)| J::n(i as i128)).collect())));
                 let mut gs = Vec::new();
                 walk(&h, true, &mut gs);
                 o.push((
